@@ -148,6 +148,127 @@ func runC16Deep2(r *Run, rng *Rng, replay string) {
 	for _, w := range []int{1, 2, 4, 8} {
 		c16ProbeCaps(r, w)
 	}
+	c16ProbeForeign(r)
+	c16ProbeBuilder(r)
+}
+
+// messages of a foreign Go type violate the ports' contracts: every stage panics on them (type
+// assertion / `log.Panicf`) instead of dropping or forwarding them — recorded, outside the property
+func c16ProbeForeign(r *Run) {
+	for _, where := range []string{"top", "bottom", "translation", "control"} {
+		comp := addresstranslator.MakeBuilder().WithEngine(&fakeEngine{}).WithFreq(1 * sim.GHz).WithNumReqPerCycle(1).
+			WithMemoryProviderMapper(onePortMapper{"Mem"}).WithTranslationProviderMapper(onePortMapper{"MMU"}).Build("ATf")
+		top, bot, tr, ctl := comp.VerifC16Ports()
+		conn := &fakeConn{name: "c16f"}
+		for _, p := range []sim.Port{top, bot, tr, ctl} {
+			p.SetConnection(conn)
+		}
+		var fault string
+		switch where {
+		case "top":
+			_ = top.Deliver(mem.ControlMsgBuilder{}.WithSrc("X").WithDst(top.AsRemote()).Build())
+		case "bottom":
+			_ = bot.Deliver(mem.ControlMsgBuilder{}.WithSrc("X").WithDst(bot.AsRemote()).Build())
+		case "translation":
+			_ = tr.Deliver(mem.ControlMsgBuilder{}.WithSrc("X").WithDst(tr.AsRemote()).Build())
+		case "control":
+			_ = ctl.Deliver(mem.ReadReqBuilder{}.WithSrc("X").WithDst(ctl.AsRemote()).WithByteSize(4).Build())
+		}
+		fault = catch(func() { comp.Tick() })
+		r.Checked("probe.foreign")
+		if fault == "" {
+			r.Failf("C16.probe.foreign", "probe foreign "+where, "a message of a foreign type at the %s port was not rejected", where)
+		} else {
+			r.Count("probe.foreign-type-panics." + where)
+		}
+	}
+}
+
+// Builder.setupMemoryPortMapper / setupTranslationPortMapper: which configurations build, which
+// panic, and that the interleaved mapper interleaves at page granularity (1 << log2PageSize)
+func c16ProbeBuilder(r *Run) {
+	type cfg struct {
+		memType  string
+		memPorts []sim.RemotePort
+		trType   string
+		trPorts  []sim.RemotePort
+		panics   bool
+	}
+	two := []sim.RemotePort{"P0", "P1"}
+	one := []sim.RemotePort{"P0"}
+	cases := []cfg{
+		{"single", one, "single", one, false},
+		{"interleaved", two, "interleaved", two, false},
+		{"single", two, "single", one, true},
+		{"single", nil, "single", one, true},
+		{"interleaved", nil, "single", one, true},
+		{"", one, "single", one, true},
+		{"bogus", one, "single", one, true},
+		{"single", one, "single", two, true},
+		{"single", one, "interleaved", nil, true},
+		{"single", one, "", one, true},
+	}
+	for i, c := range cases {
+		line := fmt.Sprintf("probe builder #%d mem=%q/%d tr=%q/%d", i, c.memType, len(c.memPorts), c.trType, len(c.trPorts))
+		var comp *addresstranslator.Comp
+		fault := catch(func() {
+			comp = addresstranslator.MakeBuilder().WithEngine(&fakeEngine{}).WithFreq(1 * sim.GHz).WithNumReqPerCycle(2).
+				WithLog2PageSize(8).
+				WithMemoryProviderType(c.memType).WithMemoryProviders(c.memPorts...).
+				WithTranslationProviderMapperType(c.trType).WithTranslationProviders(c.trPorts...).Build("ATb")
+		})
+		r.Checked("probe.builder")
+		if (fault != "") != c.panics {
+			r.Failf("C16.probe.builder", line, "expected panic=%v, got fault %q", c.panics, fault)
+			continue
+		}
+		if c.panics {
+			r.Count("probe.builder-rejects")
+			continue
+		}
+		// two accesses to consecutive virtual pages 0x100, 0x200, translated to physical pages 0x700, 0x800
+		top, bot, tr, ctl := comp.VerifC16Ports()
+		conn := &fakeConn{name: "c16b"}
+		for _, p := range []sim.Port{top, bot, tr, ctl} {
+			p.SetConnection(conn)
+		}
+		for _, va := range []uint64{0x104, 0x208} {
+			_ = top.Deliver(mem.ReadReqBuilder{}.WithSrc("CU").WithDst(top.AsRemote()).WithPID(1).WithAddress(va).WithByteSize(4).Build())
+		}
+		comp.Tick()
+		for k := 0; k < 2; k++ {
+			q, _ := tr.RetrieveOutgoing().(*vm.TranslationReq)
+			if q == nil {
+				r.Failf("C16.probe.builder", line, "lookup %d not sent", k)
+				break
+			}
+			wantT := c.trPorts[0]
+			if c.trType == "interleaved" {
+				wantT = c.trPorts[(q.VAddr>>8)%2]
+			}
+			if q.Dst != wantT {
+				r.Failf("C16.probe.builder", line, "lookup for %x sent to %s, expected %s", q.VAddr, q.Dst, wantT)
+			}
+			_ = tr.Deliver(vm.TranslationRspBuilder{}.WithSrc(q.Dst).WithDst(q.Src).WithRspTo(q.ID).
+				WithPage(vm.Page{PID: 1, VAddr: q.VAddr, PAddr: q.VAddr + 0x600, Valid: true}).Build())
+		}
+		comp.Tick()
+		for k := 0; k < 2; k++ {
+			b, _ := bot.RetrieveOutgoing().(*mem.ReadReq)
+			if b == nil {
+				r.Failf("C16.probe.builder", line, "request %d not forwarded", k)
+				break
+			}
+			wantM := c.memPorts[0]
+			if c.memType == "interleaved" {
+				wantM = c.memPorts[(b.Address>>8)%2]
+			}
+			if b.Dst != wantM {
+				r.Failf("C16.probe.builder", line, "request to %x sent to %s, expected %s", b.Address, b.Dst, wantM)
+			}
+		}
+		r.Count("probe.builder-routes." + c.memType)
+	}
 }
 
 // Builder.createPorts: the incoming buffers of Top / Bottom / Translation hold numReqPerCycle
